@@ -88,6 +88,7 @@ Token *tokenize(const char *source, int *token_count) {
     int column = 1;
     int line_start = 0;  /* Track start of current line for column calculation */
     int i = 0;
+    int unknown_chars = 0;
 
     while (source[i] != '\0') {
         /* Skip whitespace */
@@ -315,12 +316,18 @@ Token *tokenize(const char *source, int *token_count) {
             case '>': tokens[count++] = create_token(TOKEN_GT, NULL, line, column); i++; break;
             default:
                 fprintf(stderr, "Error: Unknown character '%c' at line %d\n", source[i], line);
+                unknown_chars++;
                 i++;
                 break;
         }
     }
 
     tokens[count++] = create_token(TOKEN_EOF, NULL, line, column);
+    if (unknown_chars > 0) {
+        /* a reported lexical error makes the whole input ill-formed */
+        free_tokens(tokens, count);
+        return NULL;
+    }
     *token_count = count;
     return tokens;
 }
